@@ -1,0 +1,183 @@
+// This Source Code Form is subject to the terms of the Mozilla Public
+// License, v. 2.0. If a copy of the MPL was not distributed with this
+// file, You can obtain one at http://mozilla.org/MPL/2.0/.
+//
+// Copyright (c) DUSK NETWORK. All rights reserved.
+
+//! Verification hooks (feature `verif` only): read-only snapshots of the
+//! composer state, witness overrides on an unchanged layout, raw rows and
+//! thin public seams over `pub(super)` gadget cores. None of this is compiled
+//! without the `verif` feature.
+
+use alloc::vec::Vec;
+
+use dusk_bls12_381::BlsScalar;
+use dusk_jubjub::{JubJubAffine, JubJubExtended};
+
+use super::{Composer, Constraint, Selector, Witness, WitnessPoint};
+use crate::error::Error;
+
+/// A full copy of the composer's observable state.
+#[derive(Debug, Clone)]
+pub struct VerifSnapshot {
+    /// One entry per gate: the eleven selectors in the order
+    /// `q_m q_l q_r q_o q_f q_c q_arith q_range q_logic q_fixed q_var` and the
+    /// four wire witness indices `a b c d`.
+    pub gates: Vec<([BlsScalar; 11], [usize; 4])>,
+    /// Witness values by index.
+    pub witnesses: Vec<BlsScalar>,
+    /// Sparse public inputs sorted by row.
+    pub public_inputs: Vec<(usize, BlsScalar)>,
+}
+
+impl Composer {
+    /// Snapshot of gates, witness table and public inputs.
+    pub fn verif_snapshot(&self) -> VerifSnapshot {
+        let gates = self
+            .constraints
+            .iter()
+            .map(|g| {
+                (
+                    [
+                        g.q_m,
+                        g.q_l,
+                        g.q_r,
+                        g.q_o,
+                        g.q_f,
+                        g.q_c,
+                        g.q_arith,
+                        g.q_range,
+                        g.q_logic,
+                        g.q_fixed_group_add,
+                        g.q_variable_group_add,
+                    ],
+                    [g.a.index(), g.b.index(), g.c.index(), g.d.index()],
+                )
+            })
+            .collect();
+        let mut public_inputs: Vec<_> =
+            self.public_inputs.iter().map(|(k, v)| (*k, *v)).collect();
+        public_inputs.sort_by_key(|(k, _)| *k);
+        VerifSnapshot {
+            gates,
+            witnesses: self.witnesses.clone(),
+            public_inputs,
+        }
+    }
+
+    /// Number of allocated witnesses.
+    pub fn verif_witness_count(&self) -> usize {
+        self.witnesses.len()
+    }
+
+    /// Handle of the witness with the given index (must be allocated).
+    pub fn verif_witness(&self, index: usize) -> Option<Witness> {
+        (index < self.witnesses.len()).then(|| Witness::new(index))
+    }
+
+    /// Overwrite the value of an allocated witness; the layout is untouched.
+    pub fn verif_set_witness(&mut self, w: Witness, value: BlsScalar) {
+        self.witnesses[w.index()] = value;
+    }
+
+    /// Overwrite the value of a public input on an existing public-input
+    /// row; returns false if the row carries no public input.
+    pub fn verif_set_public_input(
+        &mut self,
+        row: usize,
+        value: BlsScalar,
+    ) -> bool {
+        match self.public_inputs.get_mut(&row) {
+            Some(v) => {
+                *v = value;
+                true
+            }
+            None => false,
+        }
+    }
+
+    /// Append a raw row with arbitrary (also internal) selectors.
+    pub fn verif_raw_gate(
+        &mut self,
+        selectors: [BlsScalar; 11],
+        wires: [Witness; 4],
+        public_input: Option<BlsScalar>,
+    ) {
+        let mut c = Constraint::new()
+            .set(Selector::Multiplication, selectors[0])
+            .set(Selector::Left, selectors[1])
+            .set(Selector::Right, selectors[2])
+            .set(Selector::Output, selectors[3])
+            .set(Selector::Fourth, selectors[4])
+            .set(Selector::Constant, selectors[5])
+            .set(Selector::Arithmetic, selectors[6])
+            .set(Selector::Range, selectors[7])
+            .set(Selector::Logic, selectors[8])
+            .set(Selector::GroupAddFixedBase, selectors[9])
+            .set(Selector::GroupAddVariableBase, selectors[10])
+            .a(wires[0])
+            .b(wires[1])
+            .c(wires[2])
+            .d(wires[3]);
+        if let Some(pi) = public_input {
+            c = c.public(pi);
+        }
+        self.append_custom_gate(c);
+    }
+
+    /// A witness point handle from two allocated witnesses.
+    pub fn verif_witness_point(x: Witness, y: Witness) -> WitnessPoint {
+        WitnessPoint::new(x, y)
+    }
+
+    /// Runtime-width seam over `range_check`.
+    pub fn verif_range_check(&mut self, w: Witness, num_bits: usize) {
+        self.range_check(w, num_bits)
+    }
+
+    /// Untyped seam over `add_point_gates`.
+    pub fn verif_add_point_gates(
+        &mut self,
+        a: WitnessPoint,
+        b: WitnessPoint,
+    ) -> WitnessPoint {
+        self.add_point_gates(a, b)
+    }
+
+    /// Seam over `assert_torsion_free_gates` with a prover-chosen `q`.
+    pub fn verif_assert_torsion_free_gates(
+        &mut self,
+        point: WitnessPoint,
+        q: JubJubAffine,
+    ) {
+        self.assert_torsion_free_gates(point, q)
+    }
+
+    /// Seam over `append_fixed_base_signed_digits`.
+    pub fn verif_fixed_base_signed_digits(
+        &mut self,
+        jubjub: Witness,
+        generator: JubJubExtended,
+        digits: &[i8; 256],
+    ) -> Result<WitnessPoint, Error> {
+        self.append_fixed_base_signed_digits(jubjub, generator, digits)
+    }
+
+    /// Seam over `bind_truncation_split`.
+    pub fn verif_bind_truncation_split(
+        &mut self,
+        input: Witness,
+        low: Witness,
+        num_bits: usize,
+    ) {
+        self.bind_truncation_split(input, low, num_bits)
+    }
+
+    /// Seam over the compressed-circuit decoder.
+    pub fn verif_from_compressed(
+        compressed: &[u8],
+        max_constraints: usize,
+    ) -> Result<Self, Error> {
+        Self::from_bytes(compressed, max_constraints)
+    }
+}
